@@ -312,9 +312,18 @@ z_number z_number::operator^(z_number x) const {
 
 // left shift  
 z_number z_number::operator<<(z_number x) const {
+  if (mpz_sgn(x._n) < 0) {
+    CRAB_ERROR("z_number: left shift by the negative amount ", x.get_str());
+  }
+  if (!mpz_fits_ulong_p(x._n)) {
+    if (mpz_sgn(_n) == 0) {
+      return *this;
+    }
+    // the result has more than 2^64 bits
+    CRAB_ERROR("z_number: left shift by ", x.get_str(), " is too large");
+  }
   mpz_t mp_r;
   mpz_init(mp_r);  
-  // TODO: check for potential overflow
   mpz_mul_2exp(mp_r, _n, mpz_get_ui(x._n));
   z_number res = from_mpz_t(mp_r);
   mpz_clear(mp_r);
@@ -323,10 +332,15 @@ z_number z_number::operator<<(z_number x) const {
 
 // arithmetic right shift  
 z_number z_number::operator>>(z_number x) const {
-  
+  if (mpz_sgn(x._n) < 0) {
+    CRAB_ERROR("z_number: right shift by the negative amount ", x.get_str());
+  }
+  if (!mpz_fits_ulong_p(x._n)) {
+    // floor(n / 2^x) for an x beyond any representable n
+    return z_number(mpz_sgn(_n) < 0 ? -1 : 0);
+  }
   mpz_t mp_r;
   mpz_init(mp_r);
-  // TODO: check for potential overflow
   mpz_fdiv_q_2exp(mp_r, _n, mpz_get_ui(x._n));
   z_number res = from_mpz_t(mp_r);
   mpz_clear(mp_r);
@@ -618,7 +632,10 @@ q_number q_number::operator<<(q_number x) const {
   mpq_t mp_r;
   mpq_init(mp_r); 
   z_number shift = to_z_number(x);
-  // TODO: check for potential overflow  
+  if (mpz_sgn(shift._n) < 0 || !mpz_fits_ulong_p(shift._n)) {
+    CRAB_ERROR("q_number: left shift by ", shift.get_str(),
+               " (negative or too large)");
+  }
   mpq_mul_2exp(mp_r, _n, mpz_get_ui(shift._n));
   q_number res = from_mpq_t(mp_r);
   mpq_clear(mp_r);
